@@ -54,6 +54,15 @@ AT_LEAST_ONCE = {"tensorly.solvers.nnls.hals_nnls"}  # range(rank) and the (lite
 FULL_ROW_SWEEP = {("tensorly.solvers.nnls.hals_nnls", "V")}  # index_update(V, index[k, :], newV) over all k replaces V
 
 
+def _computed_from(fnode, name, param):
+    """``name`` is ``param`` itself or a local every definition of which reads ``param``"""
+    if name == param:
+        return True
+    defs = [st for st in ast.walk(fnode) if isinstance(st, ast.Assign) and any(isinstance(t, ast.Name) and t.id == name for t in st.targets)]
+    others = [x for x in ast.walk(fnode) if isinstance(x, ast.Name) and x.id == name and isinstance(x.ctx, ast.Store)]
+    return bool(defs) and len(others) == len(defs) and all(any(isinstance(x, ast.Name) and x.id == param for x in ast.walk(st.value)) for st in defs)
+
+
 def _named_mask(fnode, call, name):
     """the comparison a mask name stands for at ``call``: its definition earlier in the same block, with
     nothing in between writing the mask or anything the comparison reads"""
@@ -306,6 +315,12 @@ class Sign(Domain):
                 return True
             if t in self.assume_false:
                 return False
+            # "every mode is declared non-negative": membership of anything in (a local computed from) the
+            # nn_modes parameter, however the local is called and whichever polarity the test has
+            if "mode in nn_modes" in self.assume_true and isinstance(e, ast.Compare) and len(e.ops) == 1 and isinstance(e.ops[0], (ast.In, ast.NotIn)) and isinstance(e.comparators[0], ast.Name):
+                fcur = getattr(it, "cur_function", None)
+                if fcur is not None and _computed_from(fcur.node, e.comparators[0].id, "nn_modes"):
+                    return isinstance(e.ops[0], ast.In)
             if isinstance(e, ast.UnaryOp) and isinstance(e.op, ast.Not):
                 r = look(e.operand)
                 return None if r is None else (not r)
